@@ -327,12 +327,29 @@ int main(int argc, char **argv)
 		for (int i = 0; i < 3 && i < nvecs; i++)
 			v_sample("config %s -> vector hash %016llx (%ld configs map to it)", cfg_str(&vecs[i].wit), (unsigned long long)vecs[i].h, vecs[i].count);
 		/* record the soft/assumed items */
+		/* tzcnt: on a CPU without BMI1 the encoding executes as bsf, which differs for a zero operand (and in the flags). An assembly
+		 * function that does not require AVX2 can be selected on such CPUs (BMI1 arrived together with AVX2), so every tzcnt in it must
+		 * have been reviewed: the list below pins, per function, the number of tzcnt instructions whose operands were checked to be
+		 * non-zero at that point. A new or additional tzcnt in a pre-AVX2 variant is a violation until it is reviewed. */
+		static const struct { const char *fn; int n; } tz_reviewed[] = { { "isal_update_histogram_01", 2 } };
 		for (int i = 0; isa_reqs[i].name; i++)
-			if (isa_reqs[i].tzcnt && isa_reqs[i].is_asm)
+			if (isa_reqs[i].tzcnt && isa_reqs[i].is_asm) {
 				tz_slots++;
+				if (isa_reqs[i].req & (B(F_AVX2) | B(F_AVX512F)))
+					continue; /* AVX2 and AVX-512 parts all have BMI1 (closure note above) */
+				int ok = 0;
+				for (unsigned t = 0; t < sizeof tz_reviewed / sizeof tz_reviewed[0]; t++)
+					ok |= !strcmp(tz_reviewed[t].fn, isa_reqs[i].name) && tz_reviewed[t].n == isa_reqs[i].tzcnt;
+				if (!ok) {
+					char key[200];
+					snprintf(key, sizeof key, "tzcnt-without-bmi1 function=%s", isa_reqs[i].name);
+					v_violation(key, "%s uses tzcnt %d time(s) but does not require AVX2, so the dispatcher can select it on CPUs without BMI1, where tzcnt executes as bsf "
+						    "(different result for a zero operand); not in the reviewed list", isa_reqs[i].name, isa_reqs[i].tzcnt);
+				}
+			}
 		v_count("asm_functions_using_tzcnt_not_decided", tz_slots);
 		v_note("unexamined features fixed to their co-generational value: SSSE3 with SSE3, POPCNT with SSE4.2, BMI1/BMI2/LZCNT/MOVBE/FMA with AVX2");
-		v_note("tzcnt in pre-BMI1 variants executes as bsf on a CPU without BMI1 (differs only for a zero operand); host has BMI1, so not decided here");
+		v_note("tzcnt in pre-BMI1 variants executes as bsf on a CPU without BMI1 (differs only for a zero operand); host has BMI1, so its run-time effect is not decided here: instead every tzcnt in a variant selectable without AVX2 must be in the reviewed list (function, count)");
 		v_note("closure = SDM detection rules on the feature bits, family/model signature free (90 752 expected); XCR0[7:5] enumerated independently (superset of what XSETBV accepts)");
 	}
 	/* ---- invariant 4: agreement. every distinct vector is materialised and the data-plane battery is run under it ---- */
